@@ -177,14 +177,16 @@ def reformat_files(
     if inplace:
         # A file named twice (directly, or through a link) is rewritten once: a second pass
         # would replace the backup of the original with the already formatted text.
-        seen: set[str] = set()
-        unique_files: list[str] = []
+        # Of a symlink and the file it points to, the file itself is kept: rewriting the link
+        # would replace it by a regular file and leave the named target unformatted.
+        by_target: dict[str, str] = {}
         for file_path in files:
             key = os.path.realpath(file_path)
-            if key not in seen:
-                seen.add(key)
-                unique_files.append(file_path)
-        files = unique_files
+            if key not in by_target or (
+                os.path.islink(by_target[key]) and not os.path.islink(file_path)
+            ):
+                by_target[key] = file_path
+        files = [f for f in dict.fromkeys(files) if by_target[os.path.realpath(f)] == f]
 
     for file_path in files:
         if inplace:
